@@ -643,6 +643,9 @@ def bodies_of(ctx, rule, imp):
     for m in ("serialize", "deserialize", "serialized_size"):
         p = imp["items"].get(m)
         b = ctx.facts.body(p) if p else None
+        if b is not None:
+            from lib import inline
+            b = inline.inlined(ctx.facts, b)       # extracted helpers folded in, for_each / fold closures as loops
         if b is None:
             ctx.ob(rule, "%s:%s" % (imp["self"], m), False,
                    "impl Serialize for %s has no body for `%s` in the facts" % (imp["self"], m),
@@ -996,6 +999,17 @@ def is_prefix_size_of(b, op, pred):
     return c[0] == "call" and tr_method(c[2]) == "serialized_size" and self_ty(cfg.callee_full(c[2])) == "usize" and pred(c[2]["a"][0])
 
 
+def from_self(b, op, depth=0):
+    """operand is `self` (parameter 1), possibly through deref / as_slice / iter-adaptor-free borrows"""
+    c = chase(b, op)
+    if c[:2] == ("param", 1):
+        return True
+    if c[0] == "call" and depth < 4 and c[2]["a"] and (cfg.callee(c[2]) or "").endswith(
+            ("Deref>::deref", "Deref::deref", "::as_slice", "::as_ref", "::borrow")):
+        return from_self(b, c[2]["a"][0], depth + 1)
+    return False
+
+
 def shape_lenprefix(ctx, fa, st, imp, bs):
     """returns list of (instance, ok, detail)"""
     res = []
@@ -1060,8 +1074,9 @@ def shape_lenprefix(ctx, fa, st, imp, bs):
     else:
         loops = cfg.sccs(sb)
         sers = [(i, t) for i, t in cfg.calls(sb) if tr_method(t) == "serialize" and self_ty(cfg.callee_full(t)) == "T"]
-        its = [t for i, t in cfg.calls(sb) if last(cfg.callee_decl(t)) == "into_iter" and chase(sb, t["a"][0])[:2] == ("param", 1)]
-        okp = len(ser) == 2 and len(sers) == 1 and any(sers[0][0] in l for l in loops) and len(its) == 1
+        its = [t for i, t in cfg.calls(sb) if last(cfg.callee_decl(t) or cfg.callee(t)) in ("into_iter", "iter") and t["a"] and
+               from_self(sb, t["a"][0])]
+        okp = len(ser) == 2 and len(sers) == 1 and any(sers[0][0] in l for l in loops) and len(its) >= 1
         if okp:
             nx = [t for i, t in cfg.calls(sb) if last(cfg.callee_decl(t)) == "next"]
             der = cfg.derived_locals(sb, [t["d"][0] for t in nx])
@@ -1076,13 +1091,19 @@ def shape_lenprefix(ctx, fa, st, imp, bs):
         el = [x for x in zs if self_ty(cfg.callee_full(x[1])) == "T" and any(x[0] in l for l in zl)]
         okz = len(zs) == 2 and len(pre) == 1 and len(el) == 1
         if okz:
-            ret = cfg.op_place([d for d in cfg.defs(zb).get(0, []) if d[0] == "assign"][0][2]["o"])[0]
-            inits = [d for d in cfg.defs(zb).get(ret, []) if d[0] == "call" and d[1] == pre[0][0]]
-            adds = [s["r"] for bi, s in cfg.assigns(zb) if s["r"]["k"] == "bin" and s["r"]["op"].startswith("Add")]
-            okz = len(inits) == 1 and len(adds) == 1 and {(cfg.op_place(adds[0]["a"]) or [None])[0],
-                                                         (cfg.op_place(adds[0]["b"]) or [None])[0]} == {ret, el[0][1]["d"][0]}
-            its = [t for i, t in cfg.calls(zb) if last(cfg.callee_decl(t)) == "into_iter" and chase(zb, t["a"][0])[:2] == ("param", 1)]
-            okz = okz and len(its) == 1
+            # the returned value is computed from exactly: the prefix size, one addition inside the loop over self, and the
+            # element size (backward data slice of the return place; accumulator spelled as `let mut len`, `fold`, ...)
+            sl, calls_in, reads = cfg.backward_slice(zb, [0])
+            in_slice = {i for i, t in calls_in}
+            adds = [(bi, s["r"]) for bi, s in cfg.assigns(zb) if s["r"]["k"] == "bin" and s["r"]["op"].startswith("Add")]
+            okz = len(adds) == 1 and any(adds[0][0] in l for l in zl) and pre[0][0] in in_slice and el[0][0] in in_slice
+            if okz:
+                a_sl = cfg.backward_slice(zb, [x for x in ((cfg.op_place(adds[0][1]["a"]) or [None])[0],
+                                                           (cfg.op_place(adds[0][1]["b"]) or [None])[0]) if x is not None])[0]
+                okz = el[0][1]["d"][0] in a_sl and adds[0][0] in {d[1] for l_ in sl for d in cfg.defs(zb).get(l_, []) if d[0] == "assign"}
+            its = [t for i, t in cfg.calls(zb) if last(cfg.callee_decl(t) or cfg.callee(t)) in ("into_iter", "iter") and t["a"] and
+                   from_self(zb, t["a"][0])]
+            okz = okz and len(its) >= 1
         res.append(("size", okz, "serialized_size = self.len().serialized_size() + sum of element sizes" if okz else
                     "serialized_size is not `prefix size + sum(element sizes)`"))
         # decode
